@@ -57,6 +57,21 @@ def _analyze_batch(tables):
     return res
 
 
+def forwards_to_itself(ser):
+    """analyze_traits< Name, until< Cond > > derives from analyze_traits< Name, Cond::rule_t >: a cycle made of single-argument
+    until rules makes the traits inherit from themselves, i.e. the analysis does not compile for that grammar (a refusal)"""
+    rules = G.parse_table(ser)
+    for start in range(len(rules)):
+        seen = set()
+        i = start
+        while rules[i][0] == 'UNTIL1' and i not in seen:
+            seen.add(i)
+            i = rules[i][1]
+        if rules[i][0] == 'UNTIL1' and i in seen:
+            return True
+    return False
+
+
 def check(pid, tier, deadline):
     t0 = time.time()
     unit = {'name': 't_diverge', 'src': 'checks/tdiverge.cpp', 'flags': [], 'opt': '-O0' if tier == 'quick' else '-O1'}
@@ -74,8 +89,14 @@ def check(pid, tier, deadline):
                     _, ser, n, kind, wit, conf = line.split('\t')
                     tables.append((ser, int(n), int(kind), wit, int(conf)))
     tables.sort()
-    batches = [[(k, tables[k][0]) for k in range(i, min(i + BATCH, len(tables)))] for i in range(0, len(tables), BATCH)]
     problems = {}
+    todo = []
+    for k, t in enumerate(tables):
+        if forwards_to_itself(t[0]):
+            problems[k] = -1
+        else:
+            todo.append((k, t[0]))
+    batches = [todo[i:i + BATCH] for i in range(0, len(todo), BATCH)]
     with cf.ThreadPoolExecutor(V.NCPU) as ex:
         for res in ex.map(_analyze_batch, batches):
             problems.update(res)
